@@ -5,6 +5,9 @@
      8-byte field per element), sizeof, the scale/offset option bits, identity and description of ExtraBytesVlr;
  (b) function translation (fail closed): ExtraBytesStruct.num_elements, and the guards of the `scale` / `offset`
      getters (the test of the single `if` whose body returns the stored array and whose fall-through returns None).
+     Normalisations (ROBUST2): a getter that is nothing but a tail call `return self._helper(..)` of a method that did not exist when
+     this reader was written is read as that helper's body with the arguments substituted (early returns of the helper are the
+     getter's: py2v's own normal form does not inline helpers with inner returns); getattr(obj, "literal") is obj.literal.
 """
 import ast
 import ctypes
@@ -90,11 +93,40 @@ def gen_extra_bytes(repo):
         return fn.function(find_func(c, "num_elements"), "eb_num_elements", [], result="Z")[0]
     o.add("eb_num_elements", num_elements)
 
+    class _GetattrConst(ast.NodeTransformer):
+        """getattr(obj, "name") with a literal name is obj.name"""
+        def visit_Call(self, node):
+            node = self.generic_visit(node)
+            if (isinstance(node.func, ast.Name) and node.func.id == "getattr" and len(node.args) == 2 and not node.keywords
+                    and isinstance(node.args[1], ast.Constant) and isinstance(node.args[1].value, str) and node.args[1].value.isidentifier()):
+                return ast.copy_location(ast.Attribute(value=node.args[0], attr=node.args[1].value, ctx=ast.Load()), node)
+            return node
+
+    def getter_body(c, f):
+        """the statements of a getter without docstring.  A getter that is nothing but a TAIL CALL of a method of the class that did
+        not exist when this reader was written (`return self._helper(<literal / self.CONST>, ..)`) is read as the body of that helper
+        with the parameters replaced by the arguments: the value of the call is returned as it is, so early returns inside the
+        helper are the getter's returns (py2v's own normal form leaves helpers with inner returns alone).  Resolution, argument
+        binding and the side-effect-freeness of the arguments are py2v.Inliner.resolve's; one level only; anything else is left as
+        written and then fails closed below."""
+        body = [s for s in f.body if not (isinstance(s, ast.Expr) and isinstance(s.value, ast.Constant))]
+        if (len(body) == 1 and isinstance(body[0], ast.Return) and isinstance(body[0].value, ast.Call)
+                and isinstance(body[0].value.func, ast.Attribute) and isinstance(body[0].value.func.value, ast.Name)
+                and body[0].value.func.value.id == "self" and body[0].value.func.attr not in py2v.KNOWN_FUNCTIONS):
+            import copy
+            r = py2v.Inliner(repo, "laspy/vlrs/known.py", mod, c, py2v.KNOWN_FUNCTIONS).resolve(body[0].value)
+            if r is not None:
+                target, hbody, bound, _ = r
+                if not target.decorator_list and not any(isinstance(n, (ast.Yield, ast.YieldFrom, ast.Global, ast.Nonlocal, ast.FunctionDef, ast.Lambda))
+                                                         for s_ in hbody for n in ast.walk(s_)):
+                    body = [py2v._Subst(bound).visit(copy.deepcopy(s_)) for s_ in hbody]
+        return [ast.fix_missing_locations(_GetattrConst().visit(s_)) for s_ in body]
+
     def guard(prop, gname, stored):
         def t():
             c = cls()
             f = find_func(c, prop, "property")
-            body = [s for s in f.body if not (isinstance(s, ast.Expr) and isinstance(s.value, ast.Constant))]
+            body = getter_body(c, f)
             ok = (len(body) == 2 and isinstance(body[0], ast.If) and not body[0].orelse
                   and len(body[0].body) == 1 and isinstance(body[0].body[0], ast.Return)
                   and ast.unparse(body[0].body[0].value) == f"self.{stored}"
